@@ -95,7 +95,10 @@ def generate(seed: int, tier: str = "quick") -> dict:
         twins.append({"k": kb, "j": j, "kind": kind, "seed": rf.randint(0, 2**31), "mid_bin": j != j0})
         sc["faults"].append({"kind": "future_divergence:" + kind, "bar": kb})
     sc["twins"] = twins
-    if R.sub(seed, "loader").random() < 0.2:
+    if R.sub(seed, "reordered").random() < 0.06 and not any("pre" in m for m in sc["world"]["markets"]):
+        sc.setdefault("opts", {})["reordered_rows"] = True
+        sc["faults"].append({"kind": "frames_not_in_chronological_order"})
+    elif R.sub(seed, "loader").random() < 0.2:
         sc.setdefault("opts", {})["loader_twin"] = True  # the twin data sets also go through the real CSV loader
         sc["faults"].append({"kind": "data_read_from_minute_files"})
     return sc
@@ -366,9 +369,41 @@ def loader_twin_check(res, base, tw, sc2):
                         columns_a=[str(c) for c in pa.columns], columns_b=[str(c) for c in pb.columns])
 
 
+def execute_reordered(scenario):
+    """The supplied frames in an order of the caller's making (the day files joined newest first): whatever the run makes
+    of such data, it must leave the frames as they were handed over, and a second run on them must repeat the first."""
+    base = {kk: v for kk, v in scenario.items() if kk != "twins"}
+    s0 = Sim(base, SnapshotLogger())  # built, not run: only to obtain frames in the loaders' format
+    frames = {}
+    for name, df in s0.fed.items():
+        if name == "__prices__" or len(df) < 2:
+            frames[name] = df
+            continue
+        h = max(1, len(df) // 2)
+        frames[name] = pd.concat([df.iloc[h:], df.iloc[:h]])
+    h0 = {name: frame_hash(df) for name, df in frames.items()}
+    s1 = Sim(base, SnapshotLogger(), prebuilt=frames)
+    s1.run()
+    h1 = {name: frame_hash(df) for name, df in frames.items()}
+    s2 = Sim(base, SnapshotLogger(), prebuilt=frames)
+    s2.run()
+    h2 = {name: frame_hash(df) for name, df in frames.items()}
+    res = Combined([s1, s2])
+    res.count("fault:frames_not_in_chronological_order")
+    for name in h0:
+        if h0[name] != h1[name] or h0[name] != h2[name]:
+            res.violate("c02.input_mutated", name + ":reordered_rows", after_run=1 if h0[name] != h1[name] else 2)
+    if s1.events != s2.events or canon(s1.actuator.account_status) != canon(s2.actuator.account_status):
+        res.violate("c02.rerun_differs", "reordered_rows")
+    res.state(("reordered", False, False, False, len(scenario["world"]["markets"]), scenario["world"]["prices"] is None, "uni"))
+    return res
+
+
 def execute(scenario):
     if scenario.get("donor"):
         DN.prepare(scenario["donor"])
+    if scenario.get("opts", {}).get("reordered_rows") and not scenario.get("donor"):
+        return execute_reordered(scenario)
     base = {kk: v for kk, v in scenario.items() if kk != "twins"}
     h0 = {}
     s1 = Sim(base, SnapshotLogger(), on_feed=lambda name, df: h0.__setitem__(name, frame_hash(df)))  # hashed before hand-over
